@@ -1669,38 +1669,69 @@ Section join.
     intros [St H1 H2 H3 H4 H5]. constructor; simpl; auto. constructor; simpl; apply St.
   Qed.
 
+  Definition pass_prep (j : Join.t) : Join.t :=
+    let notified := filter (fun x => bool_decide (x ∈ Join.edges j)) (sorted_keys (Join.dirty j)) in
+    let j := fold_left Join.ChildChanged notified j in
+    Join.Mk (Join.last j) (Join.linked j) (Join.byNode j) (Join.value j) (Join.parents j) (Join.pending j)
+            (Join.refresh j) false (Join.ingraph j) (Join.edges j) ∅ (Join.vals j) (Join.outer j).
+
+  Lemma pass_unfold j :
+    Join.ingraph j = true ->
+    Join.pass fixed j =
+    if Join.restale (Join.Stabilize fixed (pass_prep j))
+    then Join.clear_restale (Join.Stabilize fixed (Join.clear_restale (Join.Stabilize fixed (pass_prep j))))
+    else Join.Stabilize fixed (pass_prep j).
+  Proof. intros Hg. unfold Join.pass. rewrite Hg. reflexivity. Qed.
+
+  Lemma pass_prep_eq j :
+    pass_prep j =
+    Join.Mk (Join.last j) (Join.linked j) (Join.byNode j) (Join.value j) (Join.parents j)
+      (Join.pending j ++ omap (fun x => Join.byNode j !! x)
+         (filter (fun x => bool_decide (x ∈ Join.edges j)) (sorted_keys (Join.dirty j))))
+      (Join.refresh j) false (Join.ingraph j) (Join.edges j) ∅ (Join.vals j) (Join.outer j).
+  Proof. unfold pass_prep. cbv zeta. rewrite ChildChanged_fold. reflexivity. Qed.
+
   Lemma join_pass_spec j :
     jinv j -> Join.ingraph j = true ->
     let j' := Join.pass fixed j in
     jinv j' /\ Join.value j' = F_join (Join.vals j') (Join.outer j') /\
     Join.vals j' = Join.vals j /\ Join.outer j' = Join.outer j /\ Join.ingraph j' = true.
   Proof.
-    intros [St Hlinked Hdom Houter Hpending Hfresh Hnever] Hg. unfold Join.pass. rewrite Hg.
-    set (notified := filter (fun x => bool_decide (x ∈ Join.edges j)) (sorted_keys (Join.dirty j))).
-    rewrite ChildChanged_fold. simpl. rewrite Hpending. simpl.
-    set (j2 := Join.Mk _ _ _ _ _ _ _ _ _ _ _ _ _).
-    assert (Hpre : pre j2).
-    { constructor; unfold j2; simpl; auto.
+    intros [St Hlinked Hdom Houter Hpending Hfresh Hnever] Hg. cbv zeta. rewrite (pass_unfold j Hg).
+    assert (Hpre : pre (pass_prep j)).
+    { rewrite pass_prep_eq. constructor; simpl.
       - constructor; simpl; apply St.
+      - exact Hlinked.
+      - exact Hdom.
+      - exact Houter.
+      - reflexivity.
       - destruct (Hfresh Hg) as [Hl|Hr]; [left; exact Hl|right].
         intros k x Hk. destruct (Hr k x Hk) as [Hv|Hd]; [left; exact Hv|right].
+        rewrite Hpending. simpl.
         apply elem_of_list_omap. exists x. split.
-        + unfold notified. apply elem_of_list_filter. split.
+        + apply elem_of_list_filter. split.
           * apply bool_decide_pack. apply (st_edges j St Hg). exists k. exact Hk.
           * apply elem_of_sorted_keys. exact Hd.
         + apply (st_inverse j St). exact Hk. }
+    assert (Hfields : Join.outer (pass_prep j) = Join.outer j /\ Join.vals (pass_prep j) = Join.vals j /\
+                      Join.ingraph (pass_prep j) = Join.ingraph j).
+    { rewrite pass_prep_eq. simpl. auto. }
+    destruct Hfields as (Ho2 & Hv2 & Hg2).
+    set (j2 := pass_prep j) in *.
     pose proof (Stabilize_spec j2 Hpre) as Hpost.
     assert (Hfinal : forall j3, post j2 j3 ->
               jinv j3 /\ Join.value j3 = F_join (Join.vals j3) (Join.outer j3) /\
               Join.vals j3 = Join.vals j /\ Join.outer j3 = Join.outer j /\ Join.ingraph j3 = true).
     { intros j3 (St3 & Hl3 & Hlast3 & Hout3 & Hvals3 & Hg3 & Hd3 & Hp3 & Hr3 & Hv3).
-      unfold j2 in *; simpl in *.
-      split; [|split; [rewrite Hv3, Hvals3, Hout3; reflexivity|auto]].
-      constructor; auto.
+      rewrite Ho2 in *. rewrite Hv2 in *. rewrite Hg2 in *.
+      split; [|split; [rewrite Hv3, Hvals3, Hout3; reflexivity|split; [exact Hvals3|split; [exact Hout3|congruence]]]].
+      constructor.
+      - exact St3.
       - congruence.
       - intros k. rewrite Hv3, Hl3. unfold F_join. rewrite lookup_fmap.
         destruct (Join.outer j !! k); simpl; split; congruence.
       - rewrite Hout3. exact Houter.
+      - exact Hp3.
       - intros _. right. intros k x Hk. left. rewrite Hv3, Hvals3. unfold F_join. rewrite lookup_fmap.
         rewrite Hl3 in Hk. rewrite Hk. reflexivity.
       - intros _ Hg'. congruence. }
@@ -1708,7 +1739,7 @@ Section join.
     - (* link marked the node stale: it runs a second time in the same pass *)
       set (j3 := Join.clear_restale (Join.Stabilize fixed j2)).
       assert (Hpost3 : post j2 j3) by (apply post_clear_restale; exact Hpost).
-      assert (Hpre3 : pre j3) by (eapply post_pre; [|exact Hpost3]; unfold j2; simpl; exact Houter).
+      assert (Hpre3 : pre j3) by (eapply post_pre; [|exact Hpost3]; rewrite Ho2; exact Houter).
       pose proof (post_clear_restale _ _ (Stabilize_spec j3 Hpre3)) as Hpost4.
       destruct Hpost3 as (_ & _ & _ & Hout3 & Hvals3 & Hg3 & _).
       apply Hfinal. destruct Hpost4 as (St4 & Hl4 & Hlast4 & Hout4 & Hvals4 & Hg4 & Hd4 & Hp4 & Hr4 & Hv4).
@@ -1724,9 +1755,20 @@ Section join.
   Proof.
     intros Hinv Hok Hun. pose proof Hinv as [St Hlinked Hdom Houter Hpending Hfresh Hnever].
     destruct e as [m|x v| | |]; simpl.
-    - constructor; simpl; auto. constructor; simpl; apply St.
-    - constructor; simpl; auto.
+    - constructor; simpl.
       + constructor; simpl; apply St.
+      + exact Hlinked.
+      + exact Hdom.
+      + exact Hok.
+      + exact Hpending.
+      + exact Hfresh.
+      + exact Hnever.
+    - constructor; simpl.
+      + constructor; simpl; apply St.
+      + exact Hlinked.
+      + exact Hdom.
+      + exact Houter.
+      + exact Hpending.
       + intros Hg. destruct (Hfresh Hg) as [Hl|Hr]; [left; exact Hl|right].
         intros k x' Hk. rewrite Hg. simpl.
         destruct (decide (x' = x)) as [->|Hne].
@@ -1734,14 +1776,23 @@ Section join.
         * destruct (Hr k x' Hk) as [Hv|Hd].
           -- left. rewrite Hv. unfold val_of. rewrite lookup_insert_ne by congruence. reflexivity.
           -- right. destruct (bool_decide (x ∈ Join.edges j)); set_solver.
+      + exact Hnever.
     - destruct (Join.ingraph j) eqn:Hg; [|exact Hinv].
-      constructor; simpl; auto.
+      constructor; simpl.
       + constructor; simpl; try apply St. discriminate.
+      + exact Hlinked.
+      + exact Hdom.
+      + exact Houter.
+      + exact Hpending.
       + discriminate.
       + intros Hf _. destruct Hun as [Hun|Hun]; congruence.
     - destruct (Join.ingraph j) eqn:Hg; [exact Hinv|].
-      constructor; simpl; auto.
+      constructor; simpl.
       + constructor; simpl; try apply St. intros _ x. rewrite elem_of_list_to_set. apply (st_parents j St).
+      + exact Hlinked.
+      + exact Hdom.
+      + exact Houter.
+      + exact Hpending.
       + intros _. destruct fixed eqn:Ef; [left; auto|right].
         intros k x Hk. rewrite (Hnever eq_refl eq_refl) in Hk. rewrite lookup_empty in Hk. discriminate.
       + discriminate.
@@ -1752,16 +1803,19 @@ Section join.
 
   Lemma jinv_init vals0 : jinv (Join.init vals0).
   Proof.
-    constructor; simpl; auto.
+    constructor; simpl.
     - constructor; simpl.
       + intros x k. rewrite !lookup_empty. split; discriminate.
       + constructor.
       + intros x. split; [intros H; inversion H|intros [k Hk]; rewrite lookup_empty in Hk; discriminate].
       + discriminate.
       + intros k x Hk. rewrite lookup_empty in Hk. discriminate.
+    - reflexivity.
     - intros k. rewrite !lookup_empty. tauto.
     - intros k x Hk. rewrite lookup_empty in Hk. discriminate.
+    - reflexivity.
     - discriminate.
+    - reflexivity.
   Qed.
 
   Lemma jinv_run (evs : list Join.ev) j :
@@ -1797,3 +1851,184 @@ Section join.
     - unfold Join.pass. rewrite Hg. intros Hg'. congruence.
   Qed.
 End join.
+
+(** ** the code as it is ([fixed = false]) does not satisfy the unrestricted statement *)
+Definition join_holds (fixed : bool) (vals0 : zmap) (evs : list Join.ev) : Prop :=
+  let j := fold_left (Join.step fixed) (evs ++ [Join.Pass]) (Join.init vals0) in
+  Join.ingraph j = true -> Join.value j = F_join (Join.vals j) (Join.outer j).
+
+Definition injective_map (m : zmap) : Prop := forall k k' x, m !! k = Some x -> m !! k' = Some x -> k = k'.
+
+(* witness 1: unobserve the join, write an inner var, observe again *)
+Definition relink_vals0 : zmap := {[0 := 1]}.
+Definition relink_history : list Join.ev :=
+  [Join.Observe; Join.SetOuter {[0 := 0]}; Join.Pass; Join.Unobserve; Join.SetInner 0 5; Join.Observe].
+
+Lemma relink_history_consistent :
+  forall m, Join.SetOuter m ∈ relink_history -> consistent (fun _ => 0) m.
+Proof.
+  intros m Hm. unfold relink_history in Hm.
+  repeat (apply elem_of_cons in Hm as [Hm|Hm]; [try discriminate|]); [|inversion Hm].
+  inversion Hm; subst. intros k x Hk. apply lookup_singleton_Some in Hk as [-> _]. reflexivity.
+Qed.
+
+Theorem join_refuted_relink :
+  exists vals0 evs keyOf,
+    (forall m, Join.SetOuter m ∈ evs -> consistent keyOf m) /\ ~ join_holds false vals0 evs.
+Proof.
+  exists relink_vals0, relink_history, (fun _ => 0). split; [exact relink_history_consistent|].
+  unfold join_holds. intros H.
+  assert (Hg : Join.ingraph (fold_left (Join.step false) (relink_history ++ [Join.Pass]) (Join.init relink_vals0)) = true)
+    by (vm_compute; reflexivity).
+  specialize (H Hg). apply (f_equal (fun m : zmap => m !! 0)) in H. vm_compute in H. discriminate.
+Qed.
+
+(* the value the code leaves behind, and the one it should hold *)
+Example join_relink_stale_value :
+  let j := fold_left (Join.step false) (relink_history ++ [Join.Pass]) (Join.init relink_vals0) in
+  Join.value j !! 0 = Some 1 /\ F_join (Join.vals j) (Join.outer j) !! 0 = Some 5.
+Proof. vm_compute. auto. Qed.
+
+(* the repaired variant is right on the same history (an instance of join_correct) *)
+Example join_relink_fixed : join_holds true relink_vals0 relink_history.
+Proof.
+  unfold join_holds. intros Hg.
+  exact (join_correct true (fun _ => 0) relink_vals0 relink_history relink_history_consistent (or_introl eq_refl) Hg).
+Qed.
+
+(* witness 2: one inner node under two keys of the same outer map; no unobserve involved,
+   and the repair for witness 1 does not help *)
+Definition shared_history : list Join.ev :=
+  [Join.Observe; Join.SetOuter {[0 := 0; 1 := 0]}; Join.Pass; Join.SetInner 0 5].
+
+Theorem join_refuted_shared_inner :
+  exists vals0 evs, Join.Unobserve ∉ evs /\ forall fixed, ~ join_holds fixed vals0 evs.
+Proof.
+  exists relink_vals0, shared_history. split.
+  - unfold shared_history. intros Hm.
+    repeat (apply elem_of_cons in Hm as [Hm|Hm]; [try discriminate|]). inversion Hm.
+  - intros fixed H. unfold join_holds in H.
+    assert (Hg : Join.ingraph (fold_left (Join.step fixed) (shared_history ++ [Join.Pass]) (Join.init relink_vals0)) = true)
+      by (destruct fixed; vm_compute; reflexivity).
+    specialize (H Hg). apply (f_equal (fun m : zmap => m !! 0)) in H. destruct fixed; vm_compute in H; discriminate.
+Qed.
+
+(* witness 3: every outer map injective, no unobserve; an inner node moves from key 2 to
+   the smaller key 0 between two passes *)
+Definition moved_vals0 : zmap := {[7 := 8]}.
+Definition moved_history : list Join.ev :=
+  [Join.Observe; Join.SetOuter {[2 := 7]}; Join.Pass; Join.SetOuter {[0 := 7]}; Join.Pass; Join.SetInner 7 3].
+
+Theorem join_refuted_moved_inner :
+  exists vals0 evs,
+    Join.Unobserve ∉ evs /\ (forall m, Join.SetOuter m ∈ evs -> injective_map m) /\
+    forall fixed, ~ join_holds fixed vals0 evs.
+Proof.
+  exists moved_vals0, moved_history. split; [|split].
+  - unfold moved_history. intros Hm.
+    repeat (apply elem_of_cons in Hm as [Hm|Hm]; [try discriminate|]). inversion Hm.
+  - intros m Hm. unfold moved_history in Hm.
+    repeat (apply elem_of_cons in Hm as [Hm|Hm]; [try discriminate|]); [| |inversion Hm];
+      inversion Hm; subst; intros k k' x Hk Hk';
+      apply lookup_singleton_Some in Hk as [<- _]; apply lookup_singleton_Some in Hk' as [<- _]; reflexivity.
+  - intros fixed H. unfold join_holds in H.
+    assert (Hg : Join.ingraph (fold_left (Join.step fixed) (moved_history ++ [Join.Pass]) (Join.init moved_vals0)) = true)
+      by (destruct fixed; vm_compute; reflexivity).
+    specialize (H Hg). apply (f_equal (fun m : zmap => m !! 0)) in H. destruct fixed; vm_compute in H; discriminate.
+Qed.
+
+(** * MapValues with an arbitrary [equal]: the documented promise
+
+    "fn is called for a key when it is added or its value changes, and not at all for keys
+    that stayed put; pass nil to recompute a key only when it is added, never when rebound."
+    So the output is [fn] applied to the value each key had when it was last REPORTED. *)
+Definition seen_step (eq : eqfn) (g last cur : zmap) : zmap :=
+  map_imap (fun k v' => match last !! k with
+                        | Some v => if veqb eq v v' then g !! k else Some v'
+                        | None => Some v'
+                        end) cur.
+
+Definition seen_fold (eq : eqfn) (ms : list zmap) : zmap * zmap :=
+  fold_left (fun gl cur => (seen_step eq gl.1 gl.2 cur, cur)) ms (∅, ∅).
+
+Theorem map_values_seen (eq : eqfn) (f : Z -> Z -> Z) (ms : list zmap) :
+  MapValues.value (fold_left (MapValues.Stabilize eq f) ms MapValues.init)
+  = F_map_values f (seen_fold eq ms).1.
+Proof.
+  unfold seen_fold.
+  assert (H : forall s g,
+    MapValues.value s = F_map_values f g -> (forall k, g !! k = None <-> MapValues.last s !! k = None) ->
+    MapValues.value (fold_left (MapValues.Stabilize eq f) ms s)
+    = F_map_values f (fold_left (fun gl cur => (seen_step eq gl.1 gl.2 cur, cur)) ms (g, MapValues.last s)).1).
+  { induction ms as [|m ms IH]; intros s g Hv Hd; simpl; [exact Hv|].
+    apply (IH (MapValues.Stabilize eq f s m) (seen_step eq g (MapValues.last s) m)).
+    - apply map_eq. intros k.
+      rewrite mv_stabilize_value, fold_diff_lookup, Hv, !F_map_values_lookup.
+      unfold seen_step. rewrite map_lookup_imap. unfold diff_at, classify.
+      destruct (MapValues.last s !! k) as [v|] eqn:El, (m !! k) as [v'|] eqn:Em; simpl; try reflexivity.
+      + destruct (veqb eq v v'); reflexivity.
+      + rewrite (proj2 (Hd k) El). reflexivity.
+    - intros k. simpl. unfold seen_step. rewrite map_lookup_imap.
+      destruct (m !! k) as [v'|] eqn:Em; simpl; [|tauto].
+      destruct (MapValues.last s !! k) as [v|] eqn:El; [|split; discriminate].
+      destruct (veqb eq v v'); [|split; discriminate].
+      split; [|discriminate]. intros Hg. apply Hd in Hg. congruence. }
+  apply (H MapValues.init ∅).
+  - apply map_eq. intros k. rewrite F_map_values_lookup. simpl. rewrite !lookup_empty. reflexivity.
+  - intros k. simpl. rewrite !lookup_empty. tauto.
+Qed.
+
+(** * Non-vacuity: the hypotheses are satisfiable, the conclusions are about real work *)
+Example respects_exact_any : respects (Some Z.eqb) (fun k v => 2 * k + v).
+Proof. intros k a b H. apply Z.eqb_eq in H. subst. reflexivity. Qed.
+
+Example respects_coarse : respects (Some (fun a b => (a ÷ 2) =? (b ÷ 2))) (fun k v => k + 3 * (v ÷ 2)).
+Proof. intros k a b H. simpl in H. apply Z.eqb_eq in H. rewrite H. reflexivity. Qed.
+
+Example respects_nil : respects None (fun k _ => 2 * k + 1).
+Proof. intros k a b _. reflexivity. Qed.
+
+Example map_values_example :
+  let ms : list zmap := [{[1 := 10; 2 := 20]}; {[2 := 21; 3 := 30]}; ∅; {[5 := 1; 1 := 2; 9 := 3]}] in
+  MapValues.value (fold_left (MapValues.Stabilize (Some Z.eqb) (fun k v => 2 * k + v)) ms MapValues.init)
+  = {[1 := 4; 5 := 11; 9 := 21]}.
+Proof. vm_compute. reflexivity. Qed.
+
+(* with equal = nil a rebind is ignored: the promise is about first-seen values *)
+Example map_values_nil_keeps_first_seen :
+  let ms : list zmap := [{[1 := 10]}; {[1 := 11]}] in
+  MapValues.value (fold_left (MapValues.Stabilize None (fun k v => v)) ms MapValues.init) = {[1 := 10]}
+  /\ (seen_fold None ms).1 = {[1 := 10]}.
+Proof. vm_compute. auto. Qed.
+
+Example merge_respects_example :
+  merge_respects (Some Z.eqb) (Some Z.eqb)
+    (fun k e => if me_has_left e && me_has_right e then Some (me_left e + me_right e) else None).
+Proof.
+  split; intros; simpl in H; apply Z.eqb_eq in H; subst; reflexivity.
+Qed.
+
+Example unordered_fold_contract_example :
+  let add := fun (acc k v : Z) => acc + k * v in
+  let remove := fun (acc k v : Z) => acc - k * v in
+  (forall a k1 v1 k2 v2, add (add a k1 v1) k2 v2 = add (add a k2 v2) k1 v1) /\
+  (forall a k v, remove (add a k v) k v = a).
+Proof. simpl. split; intros; lia. Qed.
+
+Example join_hypotheses_example :
+  let evs := [Join.Observe; Join.SetOuter {[0 := 0; 1 := 1]}; Join.Pass; Join.SetInner 1 7; Join.Pass;
+              Join.SetOuter {[0 := 4; 1 := 1]}; Join.SetInner 4 9] in
+  let keyOf := fun x => Z.rem x 4 in
+  (forall m, Join.SetOuter m ∈ evs -> consistent keyOf m) /\ Join.Unobserve ∉ evs /\
+  let j := fold_left (Join.step false) (evs ++ [Join.Pass]) (Join.init {[0 := 1; 1 := 2; 4 := 5]}) in
+  Join.ingraph j = true /\ Join.value j = {[0 := 9; 1 := 7]}.
+Proof.
+  split; [|split].
+  - intros m Hm. repeat (apply elem_of_cons in Hm as [Hm|Hm]; [try discriminate|]); [| |inversion Hm];
+      inversion Hm; subst; intros k x Hk;
+      (destruct (decide (k = 0)) as [->|?]; [|destruct (decide (k = 1)) as [->|?]]);
+      [vm_compute in Hk; inversion Hk; reflexivity..|
+       rewrite !lookup_insert_ne, lookup_empty in Hk by congruence; discriminate].
+  - intros Hm. repeat (apply elem_of_cons in Hm as [Hm|Hm]; [try discriminate|]). inversion Hm.
+  - vm_compute. auto.
+Qed.
